@@ -30,7 +30,7 @@ from ._exceptions import (
 from ._logging import debug, dump, trace
 from ._socket import DEFAULT_SOCKET_OPTION, recv_line, send
 from ._ssl_compat import HAVE_SSL, ssl
-from ._url import get_proxy_info, parse_url
+from ._url import _is_no_proxy_host, get_proxy_info, parse_url
 
 __all__ = ["proxy_info", "connect", "read_headers"]
 
@@ -128,7 +128,14 @@ def connect(url: str, options, proxy, socket):
     # Use _start_proxied_socket() only for socks4 or socks5 proxy
     # Use _tunnel() for http proxy
     # TODO: Use python-socks for http protocol also, to standardize flow
-    if proxy.proxy_host and not socket and proxy.proxy_protocol != "http":
+    if (
+        proxy.proxy_host
+        and not socket
+        and proxy.proxy_protocol != "http"
+        # a target the no_proxy list exempts is reached directly, as with an
+        # HTTP proxy
+        and not _is_no_proxy_host(parse_url(url)[0], proxy.no_proxy)
+    ):
         return _start_proxied_socket(url, options, proxy)
 
     hostname, port_from_url, resource, is_secure = parse_url(url)
